@@ -97,6 +97,10 @@ static FWire c08(Reader& r,FReader& f) {
             Wire c; size_t k=0;
             for (const auto& d : g.domains()) { if (d.contains(p)) c.push_back((ll)k); ++k; }
             o.z.push_back((ll)c.size()); for (ll v : c) o.z.push_back(v);
+            // ... and what Geometry::domain(p) itself answers (-1: it throws)
+            ll loc=-1;
+            try { loc=(ll)dom_index(g,g.domain(p)); } catch (...) { loc=-1; }
+            o.z.push_back(loc);
         }
         return o;
     }
